@@ -25,6 +25,7 @@ from .values import (
     ExtV,
     FuncV,
     Gamma,
+    Maybe,
     ModV,
     Obj,
     OneShot,
@@ -722,10 +723,19 @@ class Interp:
                         break
                     cur = it.after(cur)
                 return None
+            if it is BOTTOM:
+                return ("raise", None)
             seq = self.concrete_iter(it)
             if seq is None:
                 raise Unsupported(f"loop over non-concrete iterable at {mi.rel}:{st.lineno}")
             for item in seq:
+                if isinstance(item, Maybe):
+                    # conditional member: the body runs under the membership guard
+                    self.assign(st.target, item.value, env, mi, st)
+                    kind, val = self._guarded(item.cond, True, lambda: self.exec_stmts(list(st.body), env, mi, lambda e: ("next", None)))
+                    if kind in ("return", "break"):
+                        raise Unsupported("control transfer inside a conditionally executed loop body")
+                    continue
                 self.assign(st.target, item, env, mi, st)
                 kind, val = self.exec_stmts(list(st.body), env, mi, lambda e: ("next", None))
                 if kind == "return":
@@ -873,6 +883,12 @@ class Interp:
             if isinstance(obj, list) and isinstance(idx, int):
                 obj[idx] = v
                 return
+            if isinstance(obj, list) and isinstance(idx, slice):
+                seq = self.concrete_iter(v)
+                if seq is None:
+                    raise Unsupported("slice assignment from a non-concrete iterable")
+                obj[idx] = seq
+                return
             self.log("setitem", st, obj=obj, index=idx, value=v)
             if isinstance(obj, TV):
                 self.log("inplace", st, target=obj, op="setitem", alias=obj.alias)
@@ -952,7 +968,10 @@ class Interp:
             a, b = self.truth(v.a, node), self.truth(v.b, node)
             if a is b and isinstance(a, bool):
                 return a
-            return Gamma(v.cond, a, b)
+            if isinstance(a, Gamma) or isinstance(b, Gamma):
+                return Gamma(v.cond, a, b)
+            # truth of γ(c ? a : b)  ==  (c and a) or (not c and b)
+            return _boolcomb(False, [_boolcomb(True, [v.cond, a]), _boolcomb(True, [_not(v.cond), b])])
         if isinstance(v, Unknown):
             return T("truth", (T("unknown", (v.why,)),))
         if isinstance(v, T):
@@ -1425,7 +1444,7 @@ class Interp:
         env.vars[n.target.id] = v
         return v
 
-    def _comp(self, gens: List[ast.comprehension], env: Env, mi: ModInfo, emit: Callable[[Env], None]) -> None:
+    def _comp(self, gens: List[ast.comprehension], env: Env, mi: ModInfo, emit: Callable[..., None]) -> None:
         if not gens:
             emit(env)
             return
@@ -1438,35 +1457,54 @@ class Interp:
             e2 = Env(env, {})
             self.assign(g.target, item, e2, mi, g.iter)
             ok = True
+            pending: List[Any] = []
+            if isinstance(item, Maybe):
+                pending.append(item.cond)
+                e2.vars.clear()
+                self.assign(g.target, item.value, e2, mi, g.iter)
             for c in g.ifs:
                 t = self.truth(self.eval(c, e2, mi), c)
                 if t is False:
                     ok = False
                     break
                 if t is not True:
-                    raise Unsupported("undecidable comprehension filter")
-            if ok:
+                    if isinstance(t, Gamma):
+                        raise Unsupported("undecidable comprehension filter")
+                    pending.append(t)
+            if ok and not pending:
                 self._comp(gens[1:], e2, mi, emit)
+            elif ok:
+                # membership depends on an undecided condition: the element is emitted under that guard
+                cond = pending[0] if len(pending) == 1 else _boolcomb(True, pending)
+                if gens[1:]:
+                    raise Unsupported("undecidable comprehension filter in a nested comprehension")
+                self.guard.append((cond, True))
+                try:
+                    emit(e2, cond)
+                finally:
+                    self.guard.pop()
 
     def e_ListComp(self, n: ast.ListComp, env: Env, mi: ModInfo) -> Any:
         out: List[Any] = []
-        self._comp(n.generators, env, mi, lambda e: out.append(self.eval(n.elt, e, mi)))
+        self._comp(n.generators, env, mi, lambda e, cond=None: out.append(self.eval(n.elt, e, mi) if cond is None else Maybe(cond, self.eval(n.elt, e, mi))))
         return out
 
     def e_GeneratorExp(self, n: ast.GeneratorExp, env: Env, mi: ModInfo) -> Any:
         out: List[Any] = []
-        self._comp(n.generators, env, mi, lambda e: out.append(self.eval(n.elt, e, mi)))
+        self._comp(n.generators, env, mi, lambda e, cond=None: out.append(self.eval(n.elt, e, mi) if cond is None else Maybe(cond, self.eval(n.elt, e, mi))))
         return OneShot(out)
 
     def e_SetComp(self, n: ast.SetComp, env: Env, mi: ModInfo) -> Any:
         out: List[Any] = []
-        self._comp(n.generators, env, mi, lambda e: out.append(self.eval(n.elt, e, mi)))
+        self._comp(n.generators, env, mi, lambda e, cond=None: out.append(self.eval(n.elt, e, mi)))
         return make_set(out)
 
     def e_DictComp(self, n: ast.DictComp, env: Env, mi: ModInfo) -> Any:
         out: Dict[Any, Any] = {}
 
-        def emit(e: Env) -> None:
+        def emit(e: Env, cond: Any = None) -> None:
+            if cond is not None:
+                raise Unsupported("undecidable filter in a dict comprehension")
             k = self.eval(n.key, e, mi)
             if not _hashable(k):
                 raise Unsupported("unhashable key in dict comprehension")
